@@ -34,9 +34,9 @@ def main():
         if pat and pat not in o.name: continue
         if o.verdict == "discharged" and o.covered is not False and "-v" not in sys.argv: continue
         print("  %-10s %s inst=%d ms=%.0f %s" % (o.verdict, o.name, o.instances, o.ms, "" if o.covered is not False else "VACUOUS-ANTECEDENT"))
-        for f in o.failed[:3]:
+        for f in o.failed[:1]:
             print("      FAIL", str({k: v for k, v in f.items() if k not in ("smt2", "model")})[:300], str({k: v for k, v in (f.get("model") or {}).items() if "#" not in k and "!" not in k})[:400])
-        for f in o.unknown[:3]:
+        for f in o.unknown[:1]:
             print("      UNKNOWN", {k: v for k, v in f.items() if k != "smt2"})
     n = sum(1 for o in eng.obls.values() if o.verdict == "discharged")
     print("obligations %d discharged %d" % (len(eng.obls), n))
